@@ -1,6 +1,7 @@
 package main
 
 import (
+	"sort"
 	"bufio"
 	"encoding/json"
 	"flag"
@@ -160,6 +161,7 @@ func values(args []string) error {
 	out := fs.String("out", "", "output (ndjson)")
 	only := fs.String("types", "", "type filter")
 	wm := fs.Bool("wm", false, "the message universe of the WireMachine model: every frame type with a small body and without a body, plus a plain message")
+	wmrcv := fs.Bool("wmrcv", false, "the message universe of the WireMachine receiver configurations: one frame type with three different registered bodies (and without a body), one extension owner with two application ids")
 	fs.Parse(args)
 	f, err := os.Create(*out)
 	if err != nil {
@@ -172,6 +174,67 @@ func values(args []string) error {
 	g := vh.NewGen(*seed)
 	g.Small = true
 	g.MaxList = 1
+	if *wmrcv {
+		emit := func(t string, v map[string]any) error {
+			obj, err := vh.Build(v)
+			if err != nil {
+				return err
+			}
+			return enc.Encode(map[string]any{"t": t, "v": vh.Dump(obj)})
+		}
+		// k entries of a table, the smallest body types of a seed-dependent window, with distinct keys
+		pick := func(tab vh.Table, k int) []vh.TableEntry {
+			n := len(tab.Entries)
+			win := []vh.TableEntry{}
+			for i := 0; i < n && i < 8; i++ {
+				win = append(win, tab.Entries[(int(*seed)*3+i)%n])
+			}
+			sort.SliceStable(win, func(a, b int) bool {
+				return len(vh.S.Types[win[a].Type].Fields) < len(vh.S.Types[win[b].Type].Fields)
+			})
+			if len(win) > k {
+				win = win[:k]
+			}
+			return win
+		}
+		frames := vh.Frames()
+		ft := frames[int(*seed)%len(frames)]
+		bf := vh.BodyField(ft)
+		tab := vh.S.Tables[bf.Table]
+		for _, e := range pick(tab, 3) {
+			v := g.Value(ft, vh.Canon)
+			v[tab.KeyField] = e.Key
+			v[bf.Name] = g.Value(e.Type, vh.Canon)
+			if err := emit(ft, v); err != nil {
+				return err
+			}
+		}
+		if bf.Nil == "skip" {
+			v2 := g.Value(ft, vh.Canon)
+			v2[bf.Name] = map[string]any{"_t": "nil"}
+			if err := emit(ft, v2); err != nil {
+				return err
+			}
+		}
+		var owners []string
+		for _, xt := range vh.TableNames() {
+			if !vh.IsFrame(vh.S.Tables[xt].Owner) && len(vh.S.Tables[xt].Entries) >= 2 {
+				owners = append(owners, xt)
+			}
+		}
+		if len(owners) > 0 {
+			xtab := vh.S.Tables[owners[int(*seed)%len(owners)]]
+			for _, e := range pick(xtab, 2) {
+				v := g.Value(xtab.Owner, vh.Canon)
+				v[xtab.KeyField] = e.Key
+				v[vh.BodyField(xtab.Owner).Name] = g.Value(e.Type, vh.Canon)
+				if err := emit(xtab.Owner, v); err != nil {
+					return err
+				}
+			}
+		}
+		return nil
+	}
 	if *wm {
 		emit := func(t string, v map[string]any) error {
 			obj, err := vh.Build(v)
